@@ -574,3 +574,116 @@ def dc_raises(ctx, st, exc):
 def dataclass_unit(prop):
     return Unit(prop, TARGET.format("is_dataclass_like(typehint)"), dc_setup, dc_post, dc_raises, label="dataclass", expect_cover=("return", "raise:ValueError"), replayer="replayers.c09:replay_dataclass_history",
                 trusted=["ActionTypeHint.get_class_parser(typehint, sub_add_kwargs=...) builds a fresh parser for that class", "parser.parse_object / parse_args validate against that class"])
+
+
+# ============================================================================ the dispatch of adapt_typehints
+# Each arm above is verified for "its" kind of type hint; this unit closes the chain: for a type hint of a given kind the arm that
+# runs is that kind's arm (first match in the documented priority: a registered / Enum / dataclass-like class is not treated as a
+# plain class, Optional/Union before containers, ...).  The whole real function is executed up to the first statement of an arm.
+ARMS = [("Any", "typehint == Any"), ("Literal", "typehint_origin in literal_types"), ("leaf", "typehint in leaf_types"), ("Annotated", "is_annotated(typehint)"),
+        ("registered", "get_registered_type(typehint)"), ("Enum", "is_subclass(typehint, Enum)"), ("Type", "typehint in {Type, type} or typehint_origin in {Type, type}"),
+        ("Union", "typehint_origin == Union"), ("Tuple/Set", "typehint_origin in tuple_set_origin_types"), ("List", "typehint_origin in sequence_origin_types"),
+        ("Dict", "typehint_origin in mapping_origin_types"), ("NotRequired", "typehint_origin in not_required_required_types"),
+        ("Callable", "typehint_origin in callable_origin_types or typehint in callable_origin_types"), ("dataclass", "is_dataclass_like(typehint)"),
+        ("class", "not hasattr(typehint, '__origin__') and inspect.isclass(typehint)"), ("alias", "is_alias_type(typehint)")]
+
+# kind of type hint -> (facts, the arm that must run)
+KINDS_OF_HINT = [
+    ("Any", dict(is_any=True), "Any"),
+    ("Literal['a', 1]", dict(origin="Literal"), "Literal"),
+    ("int (a leaf type)", dict(leaf=True, isclass=True), "leaf"),
+    ("Annotated[int, ...]", dict(annotated=True, origin="int-class"), "Annotated"),
+    ("a registered class (datetime, Path, ...)", dict(registered=True, isclass=True), "registered"),
+    ("an Enum class", dict(enum=True, isclass=True), "Enum"),
+    ("a registered Enum class", dict(enum=True, registered=True, isclass=True), "registered"),
+    ("Type[Base]", dict(origin="Type"), "Type"),
+    ("type (bare)", dict(is_type=True, isclass=True), "Type"),
+    ("Union[int, str] / Optional[int]", dict(origin="Union"), "Union"),
+    ("Tuple[int, str]", dict(origin="tuple"), "Tuple/Set"),
+    ("Set[int]", dict(origin="set"), "Tuple/Set"),
+    ("List[int]", dict(origin="list"), "List"),
+    ("Dict[str, int]", dict(origin="dict"), "Dict"),
+    ("NotRequired[int]", dict(origin="NotRequired"), "NotRequired"),
+    ("Callable[[int], int]", dict(origin="Callable"), "Callable"),
+    ("Callable (bare)", dict(is_callable=True), "Callable"),
+    ("a dataclass-like class", dict(dataclass=True, isclass=True), "dataclass"),
+    ("a plain class", dict(isclass=True), "class"),
+    ("a generic alias of a class (has __origin__)", dict(isclass=False, has_origin=True, origin="some-generic"), None),
+    ("a type alias (type X = ...)", dict(alias=True), "alias"),
+    ("something unsupported", dict(), None),
+]
+
+
+def arm_lines():
+    from pyvc.units import find_function
+    import ast as _ast
+    fn = find_function("jsonargparse._typehints", "adapt_typehints")[0]
+    texts = {t for _, t in ARMS}
+    lines = {}
+    for node in _ast.walk(fn):
+        if isinstance(node, _ast.If) and _ast.unparse(node.test) in texts:
+            lines[node.body[0].lineno] = _ast.unparse(node.test)
+    return lines
+
+
+def disp_setup(ctx):
+    from pyvc.engine import PathEnd
+    label, facts, want = KINDS_OF_HINT[ctx.choose(len(KINDS_OF_HINT), "kind-of-type-hint")]
+    val_is_default = ctx.choose(2, "value-is-a-scalar(possibly equal to the declared default)") == 1
+    O = {n: Rec(f"origin {n}") for n in ("Literal", "Type", "Union", "tuple", "set", "list", "dict", "NotRequired", "Callable", "int-class", "some-generic")}
+    ANY, TYPE_, TYPE_BARE, CALLABLE_BARE, ENUM = Rec("typing.Any"), O["Type"], Rec("type"), Rec("collections.abc.Callable"), Rec("Enum")
+    typehint = ANY if facts.get("is_any") else TYPE_BARE if facts.get("is_type") else CALLABLE_BARE if facts.get("is_callable") else Rec("typehint: " + label, attrs={"__args__": (Rec("subtype"),)})
+    if facts.get("has_origin") or facts.get("origin"):
+        typehint.attrs["__origin__"] = O.get(facts.get("origin"), Rec("origin"))
+    leaf = Rec("leaf-int")
+    if facts.get("leaf"):
+        typehint = leaf
+    lines = arm_lines()
+    test_of = dict(ARMS)
+
+    def before(c, interp, stmt, env):
+        t = lines.get(stmt.lineno)
+        if t is not None:
+            c.oblige("post", f"the-arm-that-runs-is-the-one-for-this-kind-of-type-hint[{label}]", want is not None and t == test_of[want], note=f"entered the arm `{t}`")
+            if val_is_default:
+                c.oblige("post", f"a-scalar-is-adapted-unless-it-equals-the-declared-default[{label}]", val != default)
+            raise PathEnd()
+
+    default = z3.Int("default")
+    val = z3.Int("val") if val_is_default else Rec("value")
+    consts = {"Any": ANY, "literal_types": {O["Literal"]}, "leaf_types": {leaf, Rec("leaf-str")}, "Type": TYPE_, "type": TYPE_BARE, "Union": O["Union"], "Enum": ENUM,
+              "tuple_set_origin_types": {O["tuple"], O["set"]}, "sequence_origin_types": {O["list"]}, "mapping_origin_types": {O["dict"]},
+              "not_required_required_types": {O["NotRequired"]}, "callable_origin_types": {O["Callable"], CALLABLE_BARE}}
+    calls = {
+        "get_typehint_origin": lambda c, a, k: O.get(facts.get("origin")) if a[0] is typehint else None,
+        "is_annotated": lambda c, a, k: bool(facts.get("annotated")) and a[0] is typehint,
+        "get_registered_type": lambda c, a, k: Rec("RegisteredType") if facts.get("registered") and a[0] is typehint else None,
+        "is_subclass": lambda c, a, k: bool(facts.get("enum")) and a[0] is typehint and a[1] is ENUM,
+        "is_dataclass_like": lambda c, a, k: bool(facts.get("dataclass")) and a[0] is typehint,
+        "inspect.isclass": lambda c, a, k: bool(facts.get("isclass")) and a[0] is typehint,
+        "is_alias_type": lambda c, a, k: bool(facts.get("alias")) and a[0] is typehint,
+        "type": lambda c, a, k: ClassRef("int") if is_z3(a[0]) else ClassRef("SomeObject"),
+    }
+    env = {"val": val, "typehint": typehint, "serialize": False, "instantiate_classes": False, "prev_val": None, "orig_val": None, "append": False, "list_item": False, "enable_path": False,
+           "sub_add_kwargs": None, "default": default, "logger": None}
+    return Setup(env=env, calls=calls, consts=consts, hooks={"before_stmt": before}, data=dict(label=label, want=want, val=val, val_is_default=val_is_default, default=default))
+
+
+def disp_post(ctx, st, result):
+    d = st.data
+    if d["val_is_default"]:
+        # returned without entering an arm: either it equals the declared default (returned as it is), or no arm exists for this kind
+        ctx.oblige("post", f"a-scalar-is-returned-unadapted-only-when-it-equals-the-declared-default(or the kind is unsupported)[{d['label']}]",
+                   z3.And(z3.BoolVal(result is d["val"]), z3.Or(d["val"] == d["default"], z3.BoolVal(d["want"] is None))))
+    else:
+        ctx.oblige("post", f"a-type-hint-of-no-supported-kind-leaves-the-value-as-it-is(no arm runs)[{d['label']}]", d["want"] is None and result is d["val"])
+
+
+def disp_raises(ctx, st, exc):
+    ctx.oblige("raises", f"the-dispatch-itself-never-raises[{st.data['label']}](got {exc.cls}@{exc.origin})", False)
+
+
+def dispatch_unit(prop):
+    return Unit(prop, "jsonargparse._typehints:adapt_typehints", disp_setup, disp_post, disp_raises, label="dispatch", expect_cover=("return",),
+                trusted=["the classification helpers (get_typehint_origin, is_annotated, get_registered_type, is_subclass, is_dataclass_like, inspect.isclass, is_alias_type) answer as the kind of type hint says",
+                         "execution stops at the first statement of the arm that is entered (the arms are the block units)"])
